@@ -51,6 +51,7 @@ import (
 	"strings"
 	"sync"
 	"testing"
+	"time"
 
 	"git.arvados.org/arvados.git/lib/verifshim/vgen"
 	"git.arvados.org/arvados.git/lib/verifshim/vrep"
@@ -637,6 +638,7 @@ type c17Got struct {
 	manifest string
 	err      error
 	panicked string
+	hung     bool
 	keep     *c17keep
 }
 
@@ -731,14 +733,41 @@ func (x *c17ctx) execute(cs *c17Case) (got c17Got) {
 		secretMounts:  secrets,
 		logger:        c17nolog{},
 	}
-	defer func() {
-		if p := recover(); p != nil {
-			got.panicked = fmt.Sprint(p)
-		}
+	// Copy runs in a goroutine of its own so that a Copy that never returns (nothing is saved, no
+	// error is reported) is observed instead of stalling the shard.  The watchdog is real time, but
+	// three orders of magnitude above the few milliseconds a Copy of these trees takes; once a hang
+	// has been seen (the check fails anyway) later ones are given less.
+	type result struct {
+		manifest string
+		err      error
+		panicked string
+	}
+	ch := make(chan result, 1)
+	go func() {
+		var res result
+		defer func() {
+			if p := recover(); p != nil {
+				res.panicked = fmt.Sprint(p)
+			}
+			ch <- res
+		}()
+		res.manifest, res.err = cp.Copy()
 	}()
-	got.manifest, got.err = cp.Copy()
+	wait := 150 * time.Second
+	if c17Hangs > 0 {
+		wait = 15 * time.Second
+	}
+	select {
+	case res := <-ch:
+		got.manifest, got.err, got.panicked = res.manifest, res.err, res.panicked
+	case <-time.After(wait):
+		c17Hangs++
+		got.hung = true
+	}
 	return
 }
+
+var c17Hangs int
 
 func c17ErrClass(err error) string {
 	s := err.Error()
@@ -790,6 +819,16 @@ func (x *c17ctx) runCase(cs *c17Case) {
 	if got.panicked != "" {
 		violation("panic-in-copy", "Copy panicked: "+got.panicked)
 		r.Outcome("panic")
+		return
+	}
+	if got.hung {
+		violation("copy-did-not-return", "Copy did not return (no output saved, no error reported)")
+		r.Outcome("VIOLATION:hang")
+		if c17Hangs >= 20 {
+			r.NotExhaustive("stopped after 20 cases in which Copy did not return")
+			r.Write()
+			os.Exit(0)
+		}
 		return
 	}
 	// Secrets must not reach Keep or the manifest whether or not Copy succeeds.
@@ -1313,6 +1352,43 @@ func c17Fixed() []*c17Case {
 			{Parent: 0, Name: `f\g`, Kind: "file", Size: c17Blk + 1},
 			{Parent: -1, Name: "d:e", Kind: "link", Target: "a"},
 			{Parent: -1, Name: "k", Kind: "link", Target: c17Out + "/a/m m/s d"},
+		}},
+		// a directory that still holds many unwritten blocks when the walk moves on to the next one
+		// (the copier flushes per directory), followed by more directories
+		{Entries: []c17Entry{
+			{Parent: -1, Name: "a", Kind: "dir"},
+			{Parent: 0, Name: "f1", Kind: "file", Size: 2*c17Blk + 1},
+			{Parent: 0, Name: "f2", Kind: "file", Size: 2*c17Blk + 1},
+			{Parent: 0, Name: "f3", Kind: "file", Size: 2*c17Blk + 1},
+			{Parent: 0, Name: "f4", Kind: "file", Size: c17Blk + 1},
+			{Parent: -1, Name: "b", Kind: "dir"},
+			{Parent: 5, Name: "g", Kind: "file", Size: 1},
+			{Parent: -1, Name: "c", Kind: "file", Size: c17Blk + 1},
+		}},
+		{Entries: []c17Entry{
+			{Parent: -1, Name: "a", Kind: "dir"},
+			{Parent: 0, Name: "d", Kind: "dir"},
+			{Parent: 1, Name: "f1", Kind: "file", Size: c17Blk + 1},
+			{Parent: 1, Name: "f2", Kind: "file", Size: c17Blk + 1},
+			{Parent: 1, Name: "f3", Kind: "file", Size: c17Blk + 1},
+			{Parent: 1, Name: "f4", Kind: "file", Size: 1},
+			{Parent: 0, Name: "e", Kind: "dir"},
+			{Parent: 6, Name: "g", Kind: "file", Size: 2*c17Blk + 1},
+			{Parent: 6, Name: "h", Kind: "file", Size: 2*c17Blk + 1},
+			{Parent: -1, Name: "z", Kind: "dir"},
+		}},
+		// six files, each larger than half a block (none can share a block): six blocks are still
+		// unwritten when the walk leaves the directory
+		{Entries: []c17Entry{
+			{Parent: -1, Name: "a", Kind: "dir"},
+			{Parent: 0, Name: "f1", Kind: "file", Size: c17Blk/2 + 1},
+			{Parent: 0, Name: "f2", Kind: "file", Size: c17Blk/2 + 1},
+			{Parent: 0, Name: "f3", Kind: "file", Size: c17Blk/2 + 2},
+			{Parent: 0, Name: "f4", Kind: "file", Size: c17Blk - 1},
+			{Parent: 0, Name: "f5", Kind: "file", Size: c17Blk/2 + 1},
+			{Parent: 0, Name: "f6", Kind: "file", Size: c17Blk/2 + 1},
+			{Parent: -1, Name: "b", Kind: "dir"},
+			{Parent: 7, Name: "g", Kind: "file", Size: 1},
 		}},
 		// a collection mounted inside a mounted collection, reached directly and through a link
 		{Entries: []c17Entry{
